@@ -142,7 +142,18 @@ func c12LayoutPatches(tier string) []c12Patch {
 }
 
 func c12FileSets() [][]string {
-	return [][]string{{"doc.go", "m1.go", c12LongName, "crlf.go"}, {"m1.go", "m2.go", "n.go", "gen.go"}, {"nonl.go", "crlf.go", "ugly.go", "imp.go"}, {"bom.go", "cgo.go", "raw.go", "generic.go"}, {"hl.go", "m1.go", "nonl.go", "hl2.go"}}
+	return [][]string{{"doc.go", "m1.go", c12LongName, "crlf.go"}, {"m1.go", "m2.go", "n.go", "gen.go"}, {"nonl.go", "crlf.go", "ugly.go", "imp.go"}, {"bom.go", "cgo.go", "raw.go", "generic.go"}, {"hl.go", "m1.go", "nonl.go", "hl2.go"}, {"big.go"}}
+}
+
+// c12BigFile: more than 64 KiB, with sites at the start, in the middle and at the end
+func c12BigFile() string {
+	var b strings.Builder
+	b.WriteString("package a\n\nvar first = f1(0)\n")
+	for i := 0; b.Len() < 68000; i++ {
+		fmt.Fprintf(&b, "\nfunc big%04d() int { return f2(%d) + %d }\n", i, i, i)
+	}
+	b.WriteString("\nvar last = f1(9)\n")
+	return b.String()
 }
 
 // c12LongName: a legal file name so long that a sibling with a longer name cannot be created
@@ -151,6 +162,7 @@ var c12LongName = "l_" + strings.Repeat("n", 236) + ".go"
 var c12Sources = map[string]string{
 	// a file without declarations, and a file whose temporary sibling cannot be created (the patch makes it shorter)
 	"doc.go":    "// Package a does things.\npackage a\n",
+	"big.go":    c12BigFile(),
 	c12LongName: "package a\n\nvar L = veryLongFunctionName(1) + veryLongFunctionName(2)\n\nvar M = f1(3)\n",
 	"m1.go":   "package a\n\n// F doc.\nfunc F() int {\n\tv := f1(1)\n\treturn v\n}\n",
 	"m2.go":   "package a\n\nimport (\n\t\"fmt\"\n\t\"os\"\n)\n\nfunc G() {\n\tfmt.Println(f1(2), f2(os.Args))\n\tf2(3) // trailing\n}\n",
@@ -231,10 +243,10 @@ func c12Gen(tier string, emit func(any)) {
 	}
 	for _, p := range c12Patches() {
 		for si, set := range c12FileSets() {
-			if si != 0 && (si == 4) != strings.HasPrefix(p.id, "shrink") && !(si == 4 && p.id == "A") {
+			if si != 0 && si != 5 && (si == 4) != strings.HasPrefix(p.id, "shrink") && !(si == 4 && p.id == "A") {
 				continue // the hard-linked set goes with the shrinking patch sets (and with A)
 			}
-			for mask := 1; mask < 16; mask++ {
+			for mask := 1; mask < 1<<len(set); mask++ {
 				files := map[string]string{}
 				for i, n := range set {
 					if mask&(1<<i) != 0 {
